@@ -1707,6 +1707,9 @@ class MindsDBParser(Parser):
     def kw_parameter(self, p):
         key = getattr(p, 'identifier', None) or getattr(p, 'identifier0', None)
         assert key is not None
+        if not all(isinstance(part, str) for part in key.parts):
+            # a.* is not a name of a parameter
+            raise ParsingException(f'Wrong parameter name: {key}')
         key = '.'.join(key.parts)
         return {key:p[2]}
 
